@@ -4,13 +4,14 @@ From Coq Require Import List NArith ZArith Bool.
 From T4V Require Import C11.Model.
 Import ListNotations.
 
-(* E ::= +-s | +-s.k | E E | E : E | #( E ) | #n *)
+(* E ::= +-s | +-s.k | E E | E : E | #( E ) | #n | ( E ) *)
 Inductive mexpr :=
 | MLit (z : Z) (sub : option N)
 | MAnd (a b : mexpr)
 | MOr (a b : mexpr)
 | MNot (e : mexpr)
-| MNotCell (n : N).
+| MNotCell (n : N)
+| MParen (e : mexpr).             (* redundant parentheses *)
 
 (* a point off the surfaces is, for the Boolean layer, its sense assignment:
    [sg s k = true] iff the point has positive sense w.r.t. surface s (facet k) *)
@@ -27,6 +28,7 @@ Fixpoint mden (cd : N -> bool) (sg : sense) (e : mexpr) : bool :=
   | MOr a b => mden cd sg a || mden cd sg b
   | MNot e => negb (mden cd sg e)
   | MNotCell n => negb (cd n)
+  | MParen e => mden cd sg e
   end.
 
 (* denotation of what the parser returns / what complement elimination returns *)
@@ -48,6 +50,7 @@ Fixpoint toks (lvl : nat) (e : mexpr) : list token :=
   | MLit z sub => [TLit z sub]
   | MNotCell n => [THashN n]
   | MNot e => THashP :: toks 0 e ++ [TRP]
+  | MParen e => TLP :: toks 0 e ++ [TRP]
   | MAnd a b => paren (Nat.ltb 1 lvl) (toks 1 a ++ toks 2 b)
   | MOr a b => paren (Nat.ltb 0 lvl) (toks 0 a ++ TColon :: toks 1 b)
   end.
@@ -58,7 +61,7 @@ Fixpoint cell_free (e : mexpr) : bool :=
   match e with
   | MLit _ _ => true
   | MAnd a b | MOr a b => cell_free a && cell_free b
-  | MNot e => cell_free e
+  | MNot e | MParen e => cell_free e
   | MNotCell _ => false
   end.
 Fixpoint no_cell_under_not (e : mexpr) : bool :=
@@ -66,12 +69,13 @@ Fixpoint no_cell_under_not (e : mexpr) : bool :=
   | MLit _ _ | MNotCell _ => true
   | MAnd a b | MOr a b => no_cell_under_not a && no_cell_under_not b
   | MNot e => cell_free e
+  | MParen e => no_cell_under_not e
   end.
 
 (* first token, at intersection level, is a complement *)
 Fixpoint starts_hash (e : mexpr) : bool :=
   match e with
-  | MLit _ _ => false
+  | MLit _ _ | MParen _ => false
   | MNot _ | MNotCell _ => true
   | MAnd a _ => match a with MOr _ _ => false | _ => starts_hash a end
   | MOr _ _ => false     (* parenthesised at this level *)
@@ -82,15 +86,127 @@ Fixpoint no_colon_hash (e : mexpr) : bool :=
   | MLit _ _ | MNotCell _ => true
   | MAnd a b => no_colon_hash a && no_colon_hash b
   | MOr a b => no_colon_hash a && no_colon_hash b && negb (starts_hash b)
-  | MNot e => no_colon_hash e
+  | MNot e | MParen e => no_colon_hash e
   end.
 
 Fixpoint nonzero (e : mexpr) : bool :=
   match e with
   | MLit z _ => negb (z =? 0)%Z
   | MAnd a b | MOr a b => nonzero a && nonzero b
-  | MNot e => nonzero e
+  | MNot e | MParen e => nonzero e
   | MNotCell _ => true
   end.
 
 Definition admissible (e : mexpr) : bool := no_cell_under_not e && no_colon_hash e && nonzero e.
+
+(* ================================================================== *)
+(* Written forms: "any spacing MCNP accepts".                          *)
+(* A written expression is a sequence of written tokens, each with the *)
+(* number of blanks in front of it; a written token fixes the spelling *)
+(* (digit string incl. leading zeros, optional '+', blanks after '#'). *)
+(* ================================================================== *)
+From Coq Require Import String Ascii.
+From T4V Require Import Base.Str.
+Open Scope string_scope.
+
+Inductive wtok :=
+| WLit (neg plus : bool) (ds : string) (sub : option ascii)   (* [-|+]digits[.d] *)
+| WHashN (gap : nat) (ds : string)                            (* # blanks digits *)
+| WHashP (gap : nat)                                          (* # blanks (      *)
+| WLP | WRP | WColon.
+
+Fixpoint blanks (n : nat) : string :=
+  match n with O => "" | S k => String " " (blanks k) end.
+
+Definition sign_text (neg plus : bool) : string :=
+  if neg then "-" else if plus then "+" else "".
+
+Definition sub_text (sub : option ascii) : string :=
+  match sub with Some d => String "." (String d "") | None => "" end.
+
+Definition wtext (w : wtok) : string :=
+  match w with
+  | WLit neg plus ds sub => sign_text neg plus ++ ds ++ sub_text sub
+  | WHashN g ds => String "#" (blanks g ++ ds)
+  | WHashP g => String "#" (blanks g ++ "(")
+  | WLP => "(" | WRP => ")" | WColon => ":"
+  end.
+
+Definition number (ds : string) : N := parse_digits ds 0%N.
+
+(* the token a written token stands for *)
+Definition tok_of (w : wtok) : token :=
+  match w with
+  | WLit neg _ ds sub =>
+      TLit (if neg then (- Z.of_N (number ds))%Z else Z.of_N (number ds)) (option_map digit_val sub)
+  | WHashN _ ds => THashN (number ds)
+  | WHashP _ => THashP
+  | WLP => TLP | WRP => TRP | WColon => TColon
+  end.
+
+Definition digits_ok (ds : string) : bool :=
+  all_digits ds && match ds with EmptyString => false | _ => true end.
+
+Definition wf_tok (w : wtok) : bool :=
+  match w with
+  | WLit _ _ ds sub => digits_ok ds && match sub with Some d => is_digit d | None => true end
+  | WHashN _ ds => digits_ok ds
+  | _ => true
+  end.
+
+Definition written := list (nat * wtok).
+
+Fixpoint render (ws : written) (trail : nat) : string :=
+  match ws with
+  | [] => blanks trail
+  | (g, w) :: r => blanks g ++ wtext w ++ render r trail
+  end.
+
+Definition tokens_written (ws : written) : list token := map (fun p => tok_of (snd p)) ws.
+
+(* the only places where MCNP needs a blank: between two literals, and between
+   #n and an unsigned literal (the digits would run together) *)
+Definition next_is_lit (r : written) : bool :=
+  match r with (O, WLit _ _ _ _) :: _ => true | _ => false end.
+Definition next_is_bare_digit (r : written) : bool :=
+  match r with (O, WLit false false _ _) :: _ => true | _ => false end.
+
+Fixpoint wf_written (ws : written) : bool :=
+  match ws with
+  | [] => true
+  | (_, w) :: r =>
+      wf_tok w &&
+      match w with
+      | WLit _ _ _ _ => negb (next_is_lit r)
+      | WHashN _ _ => negb (next_is_bare_digit r)
+      | _ => true
+      end && wf_written r
+  end.
+
+(* ---- the canonical writing of a token sequence: decimal numbers without
+   leading zeros or '+', '#' glued to what follows, one blank between tokens ---- *)
+Definition canon_tok (t : token) : wtok :=
+  match t with
+  | TLit z sub => WLit (z <? 0)%Z false (dec (Z.abs_N z)) (option_map digit_char sub)
+  | THashN n => WHashN 0 (dec n)
+  | THashP => WHashP 0
+  | TLP => WLP | TRP => WRP | TColon => WColon
+  | TBad => WColon
+  end.
+
+Definition canon_written (ts : list token) : written :=
+  match ts with
+  | [] => []
+  | t :: r => (0, canon_tok t) :: map (fun t => (1, canon_tok t)) r
+  end.
+
+Definition print (e : mexpr) : string := render (canon_written (toks 0 e)) 0.
+
+(* facet suffixes are one digit *)
+Fixpoint facets_ok (e : mexpr) : bool :=
+  match e with
+  | MLit _ sub => match sub with Some k => (k <? 10)%N | None => true end
+  | MAnd a b | MOr a b => facets_ok a && facets_ok b
+  | MNot e | MParen e => facets_ok e
+  | MNotCell _ => true
+  end.
